@@ -294,3 +294,9 @@ func vfsApplyAny(s *vFSState, op vFSOp) {
 	}
 	vfsApply(s, op)
 }
+
+func vSubField(id [2]byte, data []byte) []byte {
+	out := []byte{id[0], id[1], byte(len(data) >> 8), byte(len(data))}
+	return append(out, data...)
+}
+
